@@ -83,7 +83,7 @@ func (e Encoder) AppendStringers(dst []byte, vals []fmt.Stringer) []byte {
 // encoded Stringer value to the input byte slice.
 func (e Encoder) AppendStringer(dst []byte, val fmt.Stringer) []byte {
 	if val == nil {
-		return e.AppendInterface(dst, nil)
+		return e.AppendNil(dst)
 	}
 	return e.AppendString(dst, val.String())
 }
